@@ -290,6 +290,17 @@ func (v *VStruct) exist(isValidTvKind bool, structName, fieldName, cusMsg string
 		if tv.Type() == timeReflectType {
 			return
 		}
+		// 指向非结构体的指针(如: *string)没有嵌套内容需要验证
+		if elem := RemoveValuePtr(tv); elem.IsValid() && elem.Kind() != reflect.Struct {
+			if isValidTvKind {
+				if cusMsg != "" {
+					v.errBuf.WriteString(GetJoinValidErrStr(structName, fieldName, tv.String(), cusMsg))
+					return
+				}
+				v.errBuf.WriteString(GetJoinValidErrStr(structName, fieldName, tv.String(), ExplainEn, "it is nonsupport", Exist))
+			}
+			return
+		}
 		v.validate(structName+"."+fieldName, tv, false)
 	case reflect.Slice, reflect.Array:
 		for i := 0; i < tv.Len(); i++ {
